@@ -3,17 +3,15 @@
    lifted with forallb_forall; the bound is in each statement. A changed table entry breaks the
    sweep and its index is the failing input. *)
 From Coq Require Import List NArith Arith Bool Lia.
-From SonicV Require Import Gen.Tables Spec.Ref.
+From SonicV Require Import Gen.Tables Spec.Ref Model.TablesDefs.
 Import ListNotations.
 Open Scope N_scope.
 
-Definition bytes256 : list N := map N.of_nat (seq 0 256).
 Lemma in_bytes256 : forall c, c < 256 -> In c bytes256.
 Proof.
   intros c H. unfold bytes256. apply in_map_iff. exists (N.to_nat c). split; [apply N2Nat.id|].
   apply in_seq. lia.
 Qed.
-Definition tab (t : list N) (i : N) : N := nth (N.to_nat i) t 0.
 
 (* ---- ESCAPED_TAB: the byte after a backslash -> the byte it denotes, 0 = not a simple escape ---- *)
 Definition escaped_tab_ok (c : N) : bool :=
@@ -52,8 +50,6 @@ Proof.
 Qed.
 
 (* hex_to_u32_nocheck: the bitwise or of the four entries *)
-Definition hex_to_u32 (a b c d : N) : N :=
-  N.lor (N.lor (N.lor (tab DIGIT_TO_VAL32 (630 + a)) (tab DIGIT_TO_VAL32 (420 + b))) (tab DIGIT_TO_VAL32 (210 + c))) (tab DIGIT_TO_VAL32 (0 + d)).
 (* for four nibbles the or of the shifted values is their positional sum: 65536 cases *)
 Definition nibbles : list N := map N.of_nat (seq 0 16).
 Definition lor_is_sum_ok (p : N * N) : bool :=
@@ -102,13 +98,6 @@ Qed.
 
 (* ---- serializer tables: NEED_ESCAPED marks exactly quote, backslash and the C0 controls;
         QUOTE_TAB holds their escape sequences ---- *)
-Definition need_spec (c : N) : bool := (c <? 32) || (c =? 34) || (c =? 92).
-Definition hexdigit (v : N) : N := if v <? 10 then 48 + v else 87 + v.   (* lower case *)
-Definition quote_spec (c : N) : list N :=
-  if c =? 34 then [92; 34] else if c =? 92 then [92; 92]
-  else if c =? 8 then [92; 98] else if c =? 9 then [92; 116] else if c =? 10 then [92; 110]
-  else if c =? 12 then [92; 102] else if c =? 13 then [92; 114]
-  else [92; 117; 48; 48; hexdigit (c / 16); hexdigit (c mod 16)].
 Definition need_ok (c : N) : bool := Bool.eqb (negb (tab NEED_ESCAPED c =? 0)) (need_spec c).
 Lemma need_sweep : forallb need_ok bytes256 = true.
 Proof. vm_compute. reflexivity. Qed.
@@ -116,8 +105,6 @@ Theorem need_escaped_correct : forall c, c < 256 -> negb (tab NEED_ESCAPED c =? 
 Proof.
   intros c H. apply Bool.eqb_prop. exact (proj1 (forallb_forall _ _) need_sweep c (in_bytes256 c H)).
 Qed.
-Definition quote_entry (c : N) : list N :=
-  let e := nth (N.to_nat c) QUOTE_TAB (0, []) in firstn (N.to_nat (fst e)) (snd e).
 Definition quote_ok (c : N) : bool :=
   if need_spec c then (if list_eq_dec N.eq_dec (quote_entry c) (quote_spec c) then true else false) else true.
 Lemma quote_sweep : forallb quote_ok bytes256 = true.
